@@ -7,8 +7,8 @@ def evalModel (ws : List String) (_res : String) : Option (Option String) :=
   match ModelExtra.handle ws with
   | some r => some r
   | none =>
-    let a := hexU64 (ws.getD 2 "0"); let b := hexU64 (ws.getD 3 "0"); let c := hexU64 (ws.getD 4 "0")
-    match DriverOps.model ws[0]! ws[1]! a b c with
+    let a := hexU64 (ws.getD 2 "0"); let b := hexU64 (ws.getD 3 "0"); let c := hexU64 (ws.getD 4 "0"); let d := hexU64 (ws.getD 5 "0")
+    match DriverOps.model ws[0]! ws[1]! a b c d with
     | none => none
     | some (.ok v) => some (some (toHex v.toNat))
     | some (.error _) => some (some "PANIC")
